@@ -144,11 +144,13 @@ class BinningsAdapter(Adapter):
         L = rec["bins"]
         exp_pairs = self._pairs(L)
         got = np.asarray(bobj.bins, dtype=float)
-        if rec["kind"] == "fixed":
+        if rec["kind"] == "fixed" or rec.get("approx"):
             # a fixed-width binning recomputes its edges from (index, width, shift): equal up to rounding
             same = got.shape == exp_pairs.shape and all(ulps(g, e) <= 2 for g, e in zip(got.ravel(), exp_pairs.ravel()))
             if not same:
                 fail("bins", exp_pairs.tolist(), got.tolist())
+            if int(bobj.bin_count) != rec["count"] or bool(bobj.is_consecutive()) != rec["consecutive"]:
+                fail("bin_count", rec["count"], int(bobj.bin_count))
             return
         if got.shape != exp_pairs.shape or not np.array_equal(got, exp_pairs):
             fail("bins", exp_pairs.tolist(), got.tolist())
@@ -288,7 +290,12 @@ class BinningsAdapter(Adapter):
     def tag(self, action, args, pre, real=None):
         def shape(bins):
             widths = {r - l for (l, r) in bins}
-            return f"{len(bins)}{'c' if consecutive(bins) else 'g'}{'r' if len(widths) == 1 else 'i'}"
+            sub = ""
+            if not consecutive(bins):
+                e = self._pairs(bins)
+                if np.allclose(e[1:, 0], e[:-1, 1], 1.0e-5, 1.0e-8):
+                    sub = "~subtol"       # the gaps are below numpy.allclose's default tolerance under this embedding
+            return f"{len(bins)}{'c' if consecutive(bins) else 'g'}{'r' if len(widths) == 1 else 'i'}{sub}"
         if action in ("Make", "MakeRefused"):
             return f"{action}/{args[1]}/{shape(args[0])}"
         rec = pre["b"]
